@@ -1,7 +1,7 @@
 (* C13: non-vacuity examples and the witnesses of the four repaired defects, evaluated on the
    model (the same byte strings are corpus/C13/*.case). *)
 From GoCar Require Import Bytes Varint Cid Header Frame V2Header Scan BlockReaderPos Inspect.
-From GoCarProofs Require Import BlockReaderPosC14 InspectFacts InspectC13.
+From GoCarProofs Require Import BlockReaderPosC14 InspectFacts InspectC13 InspectQuick.
 
 Module ExI.
   Import Ex.
@@ -91,6 +91,31 @@ Module ExI.
     | Err _ => False
     end /\
     take (blen payload) (drop 100 long_pragma) = payload.
+  Proof.
+    split; [vm_compute; reflexivity|]. split; [vm_compute; reflexivity|].
+    split; vm_compute; reflexivity.
+  Qed.
+
+  (* ---- Inspect(false) ------------------------------------------------------------------- *)
+  (* on an intact archive: the statistics of the (non-verifying) scan *)
+  Example c13_quick_clean :
+    show (inspect hok hd o (mkrdr 1 zero_v2hdr) payload false)
+    = Some (1, 3, true, (25, 36, 7), (44, 130, 0), [(85, 1); (112, 1); (113, 1)], [(0, 1); (18, 2)], 0) /\
+    br_read_all hok hd (trusted o) payload = Ok (1, roots, mkscan bs EEof).
+  Proof. split; vm_compute; reflexivity. Qed.
+
+  (* the second block's data cut 50 bytes short, nothing after it: the trusted scan stops with
+     ErrUnexpectedEOF after one block, Inspect(false) succeeds and counts the cut block with its
+     promised 130 bytes *)
+  Definition two : list block := [(c1, d1); (c2, zeros 130)].
+  Definition cut50 : bytes := take (blen (enc_payload roots two) - 50) (enc_payload roots two).
+  Example c13_quick_accepts_a_cut_last_block :
+    show (inspect hok hd o (mkrdr 1 zero_v2hdr) cut50 false)
+    = Some (1, 2, false, (20, 34, 7), (66, 130, 3), [(85, 1); (112, 1)], [(0, 1); (18, 1)], 0) /\
+    br_read_all hok hd (trusted o) cut50 = Ok (1, roots, mkscan [(c1, d1)] EUnexpectedEof) /\
+    cut_last o (br_read_tail hok hd (trusted o) cut50) = Some (c2, p2, 34, 130) /\
+    (* Inspect(true) refuses it *)
+    inspect hok hd o (mkrdr 1 zero_v2hdr) cut50 true = Err EUnexpectedEof.
   Proof.
     split; [vm_compute; reflexivity|]. split; [vm_compute; reflexivity|].
     split; vm_compute; reflexivity.
